@@ -18,7 +18,8 @@ Theorem C11_source_literals :
   mj_counter_first = 0 /\ mj_counter_incr = 1 /\ mj_leaf_num_splits = 0 /\ mj_axis_step = 1%nat /\
   mj_num_splits_offset = 1 /\ mj_scheme_stops_on_rem0_iter0 = true /\
   mj_scan_test_is_gt = true /\ mj_skip_test_is_gt = true /\ mj_refine_test_is_lt = true /\
-  mj_refine_uses_default_ulps = true /\ mj_refine_bounded_by_len = true.
+  mj_refine_uses_default_ulps = true /\ mj_refine_bounded_by_len = true /\
+  approx_version = (0, 5, 1).   (* f64_ulps_eq is transcribed from this version of the approx crate *)
 Proof. repeat split; exact eq_refl. Qed.
 
 (* mj_leaf_count: the scheme built for (part_count, max_iter) has exactly
